@@ -244,14 +244,16 @@ impl AlternateTime {
             + i64::from(self.std.ut_offset)
             - i64::from(self.dst.ut_offset);
 
+        // Whether DST starts before it ends within the calendar year is decided on the transition
+        // times themselves: the times of day of a version 3 footer may move a transition by up
+        // to a week, past the other one.
+        //
         // `Ambiguous` is `(earliest, latest)`: a repeated local time occurs first with the
         // offset in force before the transition (the larger one).
         match self.std.ut_offset.cmp(&self.dst.ut_offset) {
             Ordering::Equal => Ok(crate::MappedLocalTime::Single(self.std)),
             Ordering::Less => {
-                if self.dst_start.transition_date(current_year)
-                    < self.dst_end.transition_date(current_year)
-                {
+                if dst_start_transition_start < dst_end_transition_start {
                     // northern hemisphere
                     // For the DST END transition, the `start` happens at a later timestamp than the `end`.
                     if local_time <= dst_start_transition_start {
@@ -294,9 +296,7 @@ impl AlternateTime {
                 }
             }
             Ordering::Greater => {
-                if self.dst_start.transition_date(current_year)
-                    < self.dst_end.transition_date(current_year)
-                {
+                if dst_start_transition_start < dst_end_transition_start {
                     // southern hemisphere reverse DST
                     // For the DST END transition, the `start` happens at a later timestamp than the `end`.
                     if local_time < dst_start_transition_end {
